@@ -24,8 +24,8 @@ LEVEL_TEXT = ('Lean theorems for every well-formed code specification (library o
               'generated user-defined subclasses; hash-seed independence of indexing is a runtime test.')
 LEVEL_NOTE = ('trusted: Lean kernel + standard axioms; correspondence harness; Python dict insertion order and scipy '
               'dok/csr semantics as modelled; coordinate distinctness of the library classes is proved for all sizes for the '
-              'hand-modelled classes (theorem wf of Properties/C01<Class>.lean, incl. the three 2-D colour codes whose qubit lists '
-              'are derived from the stabilizer supports) and checked on instances for the others; interpreter hash randomisation is exercised by subprocess runs with '
+              'hand-modelled classes (theorem wf of Properties/C01<Class>.lean, incl. the three 2-D colour codes and Color3DCode whose qubit lists '
+              'are derived from the stabilizer supports, and HollowRhombicCode) and checked on instances for the others; interpreter hash randomisation is exercised by subprocess runs with '
               'different PYTHONHASHSEED (a test, the model has no hash-dependent construct)')
 TECHNIQUE = 'Lean 4 proof (list induction) + differential correspondence with the compiled model driver'
 TRUSTED = ['scipy dok->csr conversion and csr slicing/indexing semantics',
